@@ -97,6 +97,8 @@ func cacheRunImpl(c corr.Case) []string {
 		t := strings.Fields(line)
 		out = append(out, guard(func() string {
 			switch t[0] {
+			case "deep-osl":
+				return deepOSL(t[1])
 			case "case":
 				if r != nil {
 					r.CloseAll()
@@ -228,6 +230,9 @@ func c10Oracle(c corr.Case, impl []string) (string, int) {
 		if strings.HasPrefix(t[0], "readthrough") && strings.HasPrefix(impl[i], "rd fail") {
 			return impl[i], i
 		}
+		if t[0] == "deep-osl" && strings.HasPrefix(impl[i], "fail") {
+			return impl[i], i
+		}
 	}
 	return "", -1
 }
@@ -240,6 +245,9 @@ func c11Oracle(c corr.Case, impl []string) (string, int) {
 		}
 		if k := strings.Index(impl[i], "#INCOHERENT"); k >= 0 {
 			return t[0] + " through the caching filesystem: " + impl[i][k:], i
+		}
+		if t[0] == "deep-osl" && strings.HasPrefix(impl[i], "fail") {
+			return impl[i], i
 		}
 		if strings.HasPrefix(impl[i], "cohere fail") {
 			return impl[i], i
@@ -288,6 +296,8 @@ func c10Exhaustive(tier string) []corr.Case {
 			}
 		}
 	}
+	// a cache layer that keeps real directories, files several directories deep
+	cases = append(cases, corr.Case{Lines: []string{"case cache-mem 0", "deep-osl cache0", "deep-osl cache1h"}})
 	// cache times at the top of time.Duration's range (250 years; the largest whole number of seconds): nothing ever expires
 	for _, dur := range []int{7884000000, 9223372036} {
 		for _, ct := range []int{-7200, -10, -400000000} {
